@@ -69,11 +69,19 @@ def load_raw(path, prefix):
     return raw
 
 
-def load_crate(path, prefix, renames=None):
+def load_crate(path, prefix, renames=None, known_ids=None):
     raw = load_raw(path, prefix)
     for new, old in (renames or []):
         raw = raw.replace(json.dumps(new)[1:-1], json.dumps(old)[1:-1])
-    return Crate(json.loads(raw), prefix)
+    doc = json.loads(raw)
+    inlined = []
+    if known_ids is not None:
+        from .inline import inline_new_helpers, desugar_internal_iteration
+        inlined = inline_new_helpers(doc, known_ids)
+        inlined += desugar_internal_iteration(doc)
+    c = Crate(doc, prefix)
+    c.inlined = inlined
+    return c
 
 
 ANCHORS = os.path.join(os.path.dirname(os.path.dirname(os.path.dirname(os.path.abspath(__file__)))), "anchors.json")
@@ -126,15 +134,18 @@ class Program:
             allf = dict(self.lib.fns)
             allf.update(self.bin.fns)
             self.renames = compute_renames(allf, anchors)
-            if self.renames:
-                self.lib = load_crate(lib_path, LIB, self.renames)
-                self.bin = load_crate(bin_path, BIN, self.renames)
+            # functions that are neither anchored nor re-bound are new helpers: they are inlined into their callers
+            known = {a["id"] for a in anchors}
+            self.lib = load_crate(lib_path, LIB, self.renames, known)
+            self.bin = load_crate(bin_path, BIN, self.renames, known)
         # positive controls: analysed by the same driver, never part of prog.fns
         cpath = os.path.join(facts_dir, "tsg_control-lib.json")
         self.control = Crate(json.loads(open(cpath, encoding="utf-8").read()), "control") if os.path.exists(cpath) else None
         self.fns = {}
         self.fns.update(self.lib.fns)
         self.fns.update(self.bin.fns)
+        for f_ in self.fns.values():
+            f_._prog = self
         self.adts = {}
         self.adts.update(self.lib.adts)
         self.adts.update(self.bin.adts)
@@ -163,7 +174,8 @@ class Program:
         return out
 
     def closures_of(self, fn):
-        return [f for f in self.fns.values() if f.kind == "closure" and f.parent == fn.id]
+        parents = {fn.id} | set(getattr(fn, "inlined", ()) or ())
+        return [f for f in self.fns.values() if f.kind == "closure" and f.parent in parents]
 
     def all_closures_under(self, fn):
         out = []
@@ -174,6 +186,31 @@ class Program:
                 out.append(c)
                 work.append(c)
         return out
+
+    # ---- the program as extracted (no helper inlining, no loop desugaring) ---------------
+    def raw(self):
+        """context manager: inside it every function shows its body exactly as extracted.  The whole-program audits
+        (E1, E2) run on this view: each function, helper and closure is judged on its own, as written."""
+        prog = self
+
+        class _Raw:
+            def __enter__(self_):
+                self_.saved = {}
+                for f in prog.fns.values():
+                    if f.raw_body is not f.body:
+                        self_.saved[f.id] = (f.body, f.inlined, f.promoted)
+                        f.body, f.inlined, f.promoted = f.raw_body, [], f.raw_promoted
+                self_.cg = prog._cg
+                prog._cg = None
+                return prog
+
+            def __exit__(self_, *a):
+                for fid, (b, i, p_) in self_.saved.items():
+                    f = prog.fns[fid]
+                    f.body, f.inlined, f.promoted = b, i, p_
+                prog._cg = self_.cg
+                return False
+        return _Raw()
 
     # ---- call graph -------------------------------------------------------------------
     def callgraph(self):
@@ -207,7 +244,11 @@ class Fn:
         self.unsafe = d.get("unsafe", False)
         self.unsafe_blocks = d.get("unsafe_blocks", 0)
         self.promoted = d.get("promoted", [])
+        self.inlined = d.get("inlined", [])      # new helpers spliced into this body (rules/lib/inline.py)
         self.body = Body(d["body"], self) if "body" in d else None
+        # the body as extracted, for the whole-program audits (panic sites, dropped errors, recursion, polls)
+        self.raw_body = Body(d["raw_body"], self) if "raw_body" in d else self.body
+        self.raw_promoted = d.get("raw_promoted", self.promoted)
 
     @property
     def self_path(self):
